@@ -25,3 +25,27 @@ package util
 //gvc:  ensures rest: err == nil && len(input) > 0 ==> rest == input[n:]
 //gvc:  ensures val: err == nil && len(input) > 0 ==> v == spec_leb_value(arr(input), off(input), n)
 //gvc:end
+
+// VariableLengthSize: pack entry header size (git packfile.c
+// unpack_object_header_buffer): 4 bits in the first byte, then 7 bits per
+// continuation byte, least significant first; a continuation at shift > 57
+// cannot contribute without overflowing 64 bits and is rejected.
+//gvc:func VariableLengthSize
+//gvc:  props C09 C53
+//gvc:  theory bv
+//gvc:  results size err
+//gvc:  loop 1 unroll 10
+//gvc:  let p0 = reader.#pos
+//gvc:  ensures single: first & 0x80 == 0 ==> err == nil && size == first & 0x0f && reader.#pos == p0
+//gvc:  ensures nilrd: first & 0x80 != 0 && reader == nil ==> err != nil
+//gvc:  ensures consumed: err == nil ==> reader.#pos - p0 <= 9
+//gvc:  ensures value: err == nil && first & 0x80 != 0 ==> size == spec_pack_size(first, reader.#data, p0, reader.#pos - p0)
+//gvc:  ensures lastbyte: err == nil && first & 0x80 != 0 ==> reader.#pos > p0 && reader.#data[reader.#pos - 1] & 0x80 == 0
+//gvc:  ensures conts: err == nil ==> forall(k, 0, 9, p0 + k + 1 < reader.#pos ==> reader.#data[p0 + k] & 0x80 != 0)
+//gvc:end
+
+//gvc:func ObjectType
+//gvc:  props C09
+//gvc:  theory bv
+//gvc:  ensures bits: result == (b >> 4) & 7
+//gvc:end
